@@ -66,6 +66,22 @@ func DrawFamily(t *rapid.T, f string) GCase {
 		if rapid.Bool().Draw(t, "names") {
 			spec.WithNames(t, s)
 		}
+	case "dup-rules":
+		// duplicate and near-duplicate rules: reduce/reduce conflicts
+		s = spec.Productive(t, smallCfg)
+		nd := rapid.IntRange(1, 3).Draw(t, "ndup")
+		for i := 0; i < nd; i++ {
+			r := s.Rules[rapid.IntRange(0, len(s.Rules)-1).Draw(t, "dup")]
+			r.RHS = append([]int{}, r.RHS...)
+			if rapid.Bool().Draw(t, "otherlhs") {
+				r.LHS = rapid.IntRange(0, len(s.NTs)-1).Draw(t, "duplhs")
+			}
+			at := rapid.IntRange(0, len(s.Rules)).Draw(t, "dupat")
+			s.Rules = append(s.Rules[:at:at], append([]spec.Rule{r}, s.Rules[at:]...)...)
+		}
+		if rapid.Bool().Draw(t, "dupprec") {
+			spec.WithPrec(t, s)
+		}
 	case "prec-sep":
 		s, _ = spec.Separator(t)
 		spec.WithPrec(t, s)
